@@ -198,3 +198,32 @@ Theorem C02_src_replacement_texts :
   C02Gen.wildcard_txt = DOTSTAR /\ C02Gen.sep_txt = SEP_TXT /\ C02Gen.sep_eol_txt = SEP_EOL_TXT.
 Proof. exact replacement_texts_agree. Qed.
 Print Assumptions C02_src_replacement_texts.
+
+(* ---- the matchers themselves, re-read from src/filters/network_matchers.rs on every run
+   (tools/gen_fragments/c02_matchers_structure.py -> Generated.MatchGen): the dispatch of
+   `check_pattern` on the mask, the predicate of each plain matcher, the offset handed to the regex
+   manager, and for each hostname-anchored matcher the must-end condition given to
+   anchored_hostname_end and the test behind the occurrence.  Interpreted over the model's helpers
+   this description IS check_pattern, for every regex oracle, mask, pattern list, rule hostname and
+   request; it never names a matcher that is not described. ---- *)
+From Adb Require Struct_Matchers_Proofs.
+Theorem C02_src_check_pattern_is_model :
+  forall (re_ok : str -> bool) (re_match : str -> str -> bool) (mask : N) (fs : list str)
+         (hostname : option str) (r : request),
+  Struct_Matchers_Proofs.interp_check_pattern re_ok re_match (shape_of_mask mask) fs hostname r =
+  Some (check_pattern re_ok re_match mask fs hostname r).
+Proof. intros. exact (Struct_Matchers_Proofs.interp_check_pattern_is_model re_ok re_match _ fs hostname r). Qed.
+Print Assumptions C02_src_check_pattern_is_model.
+
+Theorem C02_src_check_pattern_sh_is_model :
+  forall (re_ok : str -> bool) (re_match : str -> str -> bool) (sh : shape) (fs : list str)
+         (hostname : option str) (r : request),
+  Struct_Matchers_Proofs.interp_check_pattern re_ok re_match sh fs hostname r =
+  Some (check_pattern_sh re_ok re_match sh fs hostname r).
+Proof. exact Struct_Matchers_Proofs.interp_check_pattern_is_model. Qed.
+Print Assumptions C02_src_check_pattern_sh_is_model.
+
+Theorem C02_src_dispatch_total :
+  exists name, last MatchGen.dispatch (MatchGen.MTrue, ""%string) = (MatchGen.MTrue, name).
+Proof. exact Struct_Matchers_Proofs.dispatch_total. Qed.
+Print Assumptions C02_src_dispatch_total.
